@@ -97,7 +97,10 @@ RtCases ==
                     Member("method", "GetIO", "none", Struct(<<Fld("ifIndex", Opt(Plain("int"))), Fld("with_Stats2", IF t.c = "opt" THEN t ELSE Opt(t))>>),
                                                        Struct(<<Fld("rxBytes", Opt(Plain("int"))), Fld("X", Plain("bool"))>>)),
                     Member("error", "E1", "none", Struct(<<Fld("e", IF HasAnon(t) THEN Plain("int") ELSE t), Fld("enum", Plain("string")), Fld("errNo", Opt(Plain("int")))>>), NoType),
-                    Member("error", "E0", "none", Struct(<<>>), NoType) >>)
+                    Member("error", "E0", "none", Struct(<<>>), NoType),
+                    \* declared errors whose names coincide with those of standard service errors (of another interface!)
+                    \* (MethodNotImplemented too, but its reply helper is ambiguous with the runtime's own for every caller: F7)
+                    Member("error", "InterfaceNotFound", "none", Struct(<<Fld("ifname", Plain("string")), Fld("code", Plain("int"))>>), NoType) >>)
      : t \in RtPool}
 
 Universe == CASE Mode = "rt" -> RtCases [] Mode = "types" -> TypesCases [] Mode = "shapes" -> ShapesCases [] Mode = "dups" -> DupCases [] Mode = "names" -> NamesCases
